@@ -244,6 +244,23 @@ m("c19_sort_removed", "C19", r"C19\.SORT:format_map", "map printing no longer so
     }""", """    if cfg!(feature = "preserve_order") {
         key_val.sort_by_key(|elem| elem.0);
     }""")
+# ---------------------------------------------------------------- C14
+m("c14_chars_bytes", "C14", r"C14\.CHARS:filters::truncate", "truncate slices at a byte count",
+  "tera/src/filters.rs", """        match val.char_indices().nth(length) {
+            Some((byte_idx, _)) => Ok(val[..byte_idx].to_string() + end),
+            None => Ok(val.to_string()),
+        }""", """        if length < val.len() {
+            Ok(val[..length].to_string() + end)
+        } else {
+            Ok(val.to_string())
+        }""")
+m("c14_zero_step", "C14", r"C14\.ZERO:slice:step-nonzero", "zero step check removed",
+  "tera/src/value/mod.rs", """        if step == 0 {
+            return Err(Error::message("Slicing step cannot be 0".to_string()));
+        }
+""", "")
+m("c14_arith_guard", "C14", r"C14\.ARITH:value::resolve_index", "negative-index normalisation without the sign test",
+  "tera/src/value/mod.rs", "let normalized = if idx < 0 { idx + len as i128 } else { idx };", "let normalized = if idx != 0 { idx + len as i128 } else { idx };")
 
 
 def apply(src, old, new, count, name):
